@@ -212,7 +212,7 @@ func (g *caseGen) key() string {
 	}
 	switch g.rng.Intn(12) {
 	case 0:
-		return g.pick("nodb:a", "xx:k1", ":k", "", "nokey", "hmap", "nodb", "Hmap:k1")
+		return g.pick("nodb:a", "xx:k1", ":k", "", "nokey", "hmap", "nodb", "Hmap:k1", ":"+g.dbs[0]+":k1", ":"+g.dbs[0]+":", "::")
 	default:
 		return g.freshKey()
 	}
